@@ -90,10 +90,23 @@ def cfg():
     return 3, ["I", "Cu", "Cl", "Ce", "Du", "Rc"]      # both tiers
 
 
+PLACES = ("guard", "invariant", "invariant-urgent", "invariant-committed", "invariant-second-template")
+
+
 def model(place, text):
     if place == "guard":
         return xmlgen.simple_model(decl=DECL, guard=text)
-    return xmlgen.simple_model(decl=DECL, inv=text)
+    if place == "invariant":
+        return xmlgen.simple_model(decl=DECL, inv=text)
+    if place == "invariant-second-template":
+        t2 = xmlgen.template("U", locations=[xmlgen.location("id7", "M0"), xmlgen.location("id8", "M1", inv=text)], init="id7",
+                             transitions=[xmlgen.transition("id7", "id8")])
+        return xmlgen.nta(DECL, [xmlgen.template("T", locations=[xmlgen.location("id0", "L0")], init="id0"), t2], "system T, U;")
+    # the invariant of an urgent / committed location (the location's symbol carries a prefixed type)
+    t = xmlgen.template("T", locations=[xmlgen.location("id0", "L0", inv=text, urgent=place.endswith("urgent"),
+                                                        committed=place.endswith("committed")), xmlgen.location("id1", "L1")],
+                        init="id0", transitions=[xmlgen.transition("id0", "id1")])
+    return xmlgen.nta(DECL, [t], "P = T(); system P;")
 
 
 LEAF_OK = {}
@@ -112,7 +125,7 @@ def run_shard(shard):
         items = [bin_node(op, a, b) for b in sub]
     part = engine.Part()
     w = engine.worker("fast")
-    for place in ("guard", "invariant"):
+    for place in (PLACES if depth <= 3 else PLACES[:2]):
         docs = [model(place, it[0]) for it in items]
         res = xmlgen.run_docs(w, docs, want=["noinv"], batch=200)
         for it, r in zip(items, res):
@@ -150,11 +163,11 @@ def main():
     depth, leaves = cfg()
     rep = engine.Report(PID, "exploration",
                         "all boolean formula trees of depth <= %d over leaves %s and connectives %s, each as edge guard and as "
-                        "location invariant; non-trivial = the formula contains at least one clock comparison; distinct by "
+                        "location invariant (of an ordinary, an urgent, a committed location and of a location of a second template); non-trivial = the formula contains at least one clock comparison; distinct by "
                         "(placement, formula text)" % (depth, leaves, BIN + UN))
     # atoms alone, per placement (needed by the 'conjunction of accepted atoms' clause)
     w = engine.worker("fast")
-    for place in ("guard", "invariant"):
+    for place in PLACES:
         names = list(LEAVES)
         res = xmlgen.run_docs(w, [model(place, LEAVES[n][0]) for n in names], want=["noinv"])
         for n, r in zip(names, res):
